@@ -211,3 +211,120 @@ func (s *Summary) Dump() string {
 	}
 	return sb.String()
 }
+
+// LoopStep is the result of one abstract iteration of a function's first
+// top-level loop from an arbitrary (symbolic) header state.
+type LoopStep struct {
+	Sum    *Summary
+	Header *ssa.BasicBlock
+	Phis   []*ssa.Phi
+	Pre    map[*ssa.Phi]Val // symbolic value given to each header phi
+	Init   map[*ssa.Phi]Val // value on the loop-entry edge
+	Next   map[*ssa.Phi]Val // value on the back edge after one iteration
+	Cond   Bit              // condition under which the body is entered
+	Ret    Val              // function result when the loop is left from this state
+}
+
+// AnalyzeLoop evaluates the first top-level loop of fn once from a symbolic
+// state (the inductive step of an invariant argument): header phis get fresh
+// named sources, inner constant-trip loops are unrolled, the back-edge values
+// and the function result on the exit path are returned.
+func AnalyzeLoop(P *Program, fn *ssa.Function, opts *AnalyzeOpts) (*LoopStep, error) {
+	in := newInterp(P)
+	if opts != nil && opts.Setup != nil {
+		opts.Setup(in)
+	}
+	st := newState()
+	var params []Val
+	for i, p := range fn.Params {
+		name := p.Name()
+		if name == "" || name == "_" {
+			name = fmt.Sprintf("arg%d", i)
+		}
+		params = append(params, in.paramVal(name, p.Type(), opts))
+	}
+	f := &frame{in: in, fn: fn, env: map[ssa.Value]Val{}, out: map[int]*State{}, bc: map[edgeKey]Bit{},
+		local: map[int]Bit{}, live: map[int]bool{}, rpoIx: map[int]int{}, panicIf: U.B0, refs: map[int]map[*Source]*BV{}}
+	for i, p := range fn.Params {
+		f.env[p] = params[i]
+	}
+	f.rpo = rpoOrder(fn)
+	for i, b := range f.rpo {
+		f.rpoIx[b.Index] = i
+	}
+	f.findLoops()
+	var H *ssa.BasicBlock
+	for _, b := range f.rpo {
+		if _, ok := f.loops[b.Index]; ok {
+			H = b
+			break
+		}
+	}
+	if H == nil {
+		return nil, fmt.Errorf("%s has no loop", fn)
+	}
+	in.stack = append(in.stack, fn)
+	in.curFn = fn
+	// blocks before the header (straight-line prologue) are evaluated normally
+	pre := map[int]bool{}
+	for _, b := range f.rpo {
+		if b == H {
+			break
+		}
+		pre[b.Index] = true
+	}
+	f.local[fn.Blocks[0].Index] = U.B1
+	f.runRegion(pre, -1, st, nil)
+	if in.Fail != "" {
+		return nil, fmt.Errorf("%s", in.Fail)
+	}
+	ls := &LoopStep{Header: H, Pre: map[*ssa.Phi]Val{}, Init: map[*ssa.Phi]Val{}, Next: map[*ssa.Phi]Val{}}
+	body := f.loops[H.Index]
+	outside := f.liveIn(H, func(p *ssa.BasicBlock) bool { return !body[p.Index] })
+	if len(outside) != 1 {
+		return nil, fmt.Errorf("loop header of %s has %d entry edges", fn, len(outside))
+	}
+	hst := f.out[outside[0].Index]
+	for _, ins := range H.Instrs {
+		phi, ok := ins.(*ssa.Phi)
+		if !ok {
+			break
+		}
+		ls.Phis = append(ls.Phis, phi)
+		ls.Init[phi] = f.val(phi.Edges[predIndex(H, outside[0])])
+		w, sg, ok := intWidth(phi.Type())
+		if !ok {
+			return nil, fmt.Errorf("non-integer loop variable %s", phi.Comment)
+		}
+		v := srcBV(U.source("param", "loop."+phi.Comment, w), sg)
+		ls.Pre[phi] = v
+		f.env[phi] = v
+	}
+	f.local[H.Index] = U.B1
+	region := map[int]bool{}
+	for _, b := range f.rpo[f.rpoIx[H.Index]:] {
+		region[b.Index] = true
+	}
+	f.hdrPreds = outside
+	f.runRegion(region, H.Index, hst, nil)
+	if in.Fail != "" {
+		return nil, fmt.Errorf("%s", in.Fail)
+	}
+	var back []*ssa.BasicBlock
+	for _, p := range H.Preds {
+		if body[p.Index] && f.live[p.Index] {
+			back = append(back, p)
+		}
+	}
+	if len(back) != 1 {
+		return nil, fmt.Errorf("loop of %s has %d live back edges", fn, len(back))
+	}
+	for _, phi := range ls.Phis {
+		ls.Next[phi] = f.val(phi.Edges[predIndex(H, back[0])])
+	}
+	ls.Cond = f.chain(back[0], H)
+	ret, out := f.mergeReturns(hst)
+	ls.Ret = ret
+	ls.Sum = &Summary{Fn: fn, Params: params, Ret: ret, Out: out, Events: in.events, in: in, Init: newState()}
+	return ls, nil
+}
